@@ -19,12 +19,18 @@
      holding the source's tuple; the source keeps its bytes except in the fields the move table
      assigns object by object, which hold moved-from objects
      (C11_reference_move_assignment_moves_the_values; MoveThm.v);
-   PARTIAL: assignment and swap within one vector, and the permuting algorithms
-   (which are compositions of these) are modelled as written and decided by the correspondence
+   * WITHIN ONE VECTOR (both references see every write; SameVec.v): for two elements whose
+     extents do not overlap, v[i] = v[j], v[i] = std::move(v[j]) and swap(v[i], v[j]) are the
+     two-memory runs glued together - same events, and at every address the single memory
+     holds what the target memory of the two-memory run holds inside the target element and
+     what its source memory holds elsewhere (C11_same_vector_runs_are_the_glued_two_vector_runs);
+     hence C11_same_vector_assignment, C11_same_vector_move_assignment, C11_same_vector_swap.
+   PARTIAL: self-assignment / self-swap (i = j) and the permuting algorithms (compositions of
+   these steps through libstdc++) are modelled as written and decided by the correspondence
    check and its content oracle (DESIGN.md, C11); in the model all access paths are the same
    function. *)
 From Coq Require Import ZArith List Bool Lia.
-From Cntgs Require Import Base Layout Mem Vector Proxy World Spec Rep CompareThm RunsThm ElemThm CmpContent AssignThm SwapThm MoveThm.
+From Cntgs Require Import Base Layout Mem Vector Proxy World Spec Rep CompareThm RunsThm ElemThm CmpContent AssignThm SwapThm MoveThm SameVec.
 Import ListNotations.
 Local Open Scope Z_scope.
 
@@ -124,3 +130,84 @@ Theorem C11_reference_move_assignment_moves_the_values : forall L, wf_plist L = 
   (forall y, m_s x' y = if existsb (fun k => man L k && MoveThm.rx L tx xa k y) (seq 0 (length L)) then 238 else mx y).
 Proof. exact ref_move_assign. Qed.
 Print Assumptions C11_reference_move_assignment_moves_the_values.
+
+(* ---------- both references into ONE vector ---------- *)
+Theorem C11_same_vector_runs_are_the_glued_two_vector_runs : forall L, wf_plist L = true ->
+  forall ts td fcs fcd, tuple_ok L fcs 0 ts -> tuple_ok L fcd 0 td -> cnts_of td = cnts_of ts ->
+  forall m sa da, 0 <= sa /\ (SA L | sa) -> 0 <= da /\ (SA L | da) ->
+  let len := elem_end L sa ts - sa in
+  sa + len <= da \/ da + len <= sa ->
+  forall mv sb db,
+  let one := {| m_s := m; m_d := m; m_same := true |} in
+  let two := {| m_s := m; m_d := m; m_same := false |} in
+  (let x := assign_all mv L sb db (ref_fl L ts sa) (ref_fl L td da) one (seq 0 (length L)) in
+   let y := assign_all mv L sb db (ref_fl L ts sa) (ref_fl L td da) two (seq 0 (length L)) in
+   simr (inr da len) (fst x) (fst y) /\ snd x = snd y) /\
+  (let x := swap_all L sb db (ref_fl L ts sa) (ref_fl L td da) one (seq 0 (length L)) in
+   let y := swap_all L sb db (ref_fl L ts sa) (ref_fl L td da) two (seq 0 (length L)) in
+   simr (inr da len) (fst x) (fst y) /\ snd x = snd y).
+Proof.
+  intros L Hwf ts td fcs fcd Hts Htd Hcn m sa da Hsa Hda len Hd mv sb db. split.
+  - exact (assign_same_is_glued L Hwf ts td fcs fcd Hts Htd Hcn m sa da Hsa Hda Hd mv sb db).
+  - exact (swap_same_is_glued L Hwf ts td fcs fcd Hts Htd Hcn m sa da Hsa Hda Hd sb db).
+Qed.
+Print Assumptions C11_same_vector_runs_are_the_glued_two_vector_runs.
+
+Theorem C11_same_vector_assignment : forall L, wf_plist L = true ->
+  forall ts td fcs fcd, tuple_ok L fcs 0 ts -> tuple_ok L fcd 0 td -> cnts_of td = cnts_of ts ->
+  forall m sa da, 0 <= sa /\ (SA L | sa) -> 0 <= da /\ (SA L | da) -> elem_at L m sa ts ->
+  let len := elem_end L sa ts - sa in
+  sa + len <= da \/ da + len <= sa ->
+  forall sb db,
+  let x' := fst (assign_all false L sb db (ref_fl L ts sa) (ref_fl L td da)
+                            {| m_s := m; m_d := m; m_same := true |} (seq 0 (length L))) in
+  (forall a, m_s x' a = m_d x' a) /\
+  elem_at L (m_d x') da ts /\
+  (forall y, ~ (da <= y < da + len) -> m_d x' y = m y).
+Proof. exact same_vector_copy_assign. Qed.
+Print Assumptions C11_same_vector_assignment.
+
+Theorem C11_same_vector_move_assignment : forall L, wf_plist L = true ->
+  forall ts td fcs fcd, tuple_ok L fcs 0 ts -> tuple_ok L fcd 0 td -> cnts_of td = cnts_of ts ->
+  forall m sa da, 0 <= sa /\ (SA L | sa) -> 0 <= da /\ (SA L | da) -> elem_at L m sa ts ->
+  let len := elem_end L sa ts - sa in
+  sa + len <= da \/ da + len <= sa ->
+  forall sb db,
+  let x' := fst (assign_all true L sb db (ref_fl L ts sa) (ref_fl L td da)
+                            {| m_s := m; m_d := m; m_same := true |} (seq 0 (length L))) in
+  (forall a, m_s x' a = m_d x' a) /\
+  elem_at L (m_d x') da ts /\
+  (forall y, ~ (da <= y < da + len) ->
+     m_d x' y = if existsb (fun k => man L k && MoveThm.rx L ts sa k y) (seq 0 (length L)) then 238 else m y).
+Proof. exact same_vector_move_assign. Qed.
+Print Assumptions C11_same_vector_move_assignment.
+
+Theorem C11_same_vector_swap : forall L, wf_plist L = true ->
+  forall ts td fcs fcd, tuple_ok L fcs 0 ts -> tuple_ok L fcd 0 td -> cnts_of td = cnts_of ts ->
+  forall m sa da, 0 <= sa /\ (SA L | sa) -> 0 <= da /\ (SA L | da) -> elem_at L m sa ts ->
+  let len := elem_end L sa ts - sa in
+  sa + len <= da \/ da + len <= sa ->
+  elem_at L m da td ->
+  forall xb yb,
+  let x' := fst (swap_all L xb yb (ref_fl L ts sa) (ref_fl L td da)
+                          {| m_s := m; m_d := m; m_same := true |} (seq 0 (length L))) in
+  (forall a, m_s x' a = m_d x' a) /\
+  elem_at L (m_d x') sa td /\ elem_at L (m_d x') da ts /\
+  (forall y, ~ (sa <= y < sa + len) -> ~ (da <= y < da + len) -> m_d x' y = m y).
+Proof. exact same_vector_swap. Qed.
+Print Assumptions C11_same_vector_swap.
+
+(* non-vacuity: two elements of (uint16, FixedSize<Trk,2>, uint8) in one memory (junk 0xAA),
+   16 bytes apart: after swap(v[0], v[1]) executed in ONE memory each holds the other's tuple *)
+Example C11_same_vector_example :
+  let L := [ {| pk := Plain; psz := 2; pal := 2; pty := TUInt |};
+             {| pk := Fixed; psz := 2; pal := 1; pty := TTrk |};
+             {| pk := Plain; psz := 1; pal := 1; pty := TU8 |} ] in
+  let t0 : tuple := [[[1; 0]]; [[2; 2]; [3; 3]]; [[4]]] in
+  let t1 : tuple := [[[5; 0]]; [[6; 6]; [7; 7]]; [[8]]] in
+  let m0 := fst (fst (store L t1 0%nat (fst (fst (store L t0 0%nat (mfill 170) 0))) 16)) in
+  elem_at L m0 0 t0 /\ elem_at L m0 16 t1 /\ elem_end L 0 t0 - 0 = 7 /\
+  let x' := fst (swap_all L 0%nat 0%nat (ref_fl L t0 0) (ref_fl L t1 16)
+                          {| m_s := m0; m_d := m0; m_same := true |} (seq 0 (length L))) in
+  elem_at L (m_d x') 0 t1 /\ elem_at L (m_d x') 16 t0 /\ m_d x' 7 = 170 /\ m_d x' 23 = 170.
+Proof. vm_compute. repeat split; reflexivity. Qed.
